@@ -191,6 +191,20 @@ def cases(tier, seed):
                                req="all", order=order_, cot="dense", reuse=False, **_pat(em, BATCH3[0]))
                         c["bzero"] = 1
                         out.append(c)
+    # ---- shifts that are all exactly zero: X = A^-1 B, but dX/dE = A^-1 M X diag(.) and the mixed second-order
+    # blocks d/dE [dL/dM], d/dE [dL/dA] do not vanish
+    for dtype in ["f64", "c128"]:
+        for place in ("dense_leaf", "mf_leaf", "add_two"):
+            for (em, ed) in emodes_for(dtype):
+                if em == "none" or (ed == "real" and dtype == "c128"):
+                    continue
+                for (fwd, bck) in [("custom_exactsolve", "exactsolve"), ("bicgstab", "cg"), ("cg", "bicgstab"),
+                                   ("exactsolve", "default")]:
+                    for order_ in ["1", "1cg", "2"]:
+                        c = mk(plane="subset", place=place, fwd=fwd, bck=bck, E=em, Edtype=ed, dtype=dtype, n=3, ncols=2,
+                               req="all", order=order_, cot="dense", reuse=False, **_pat(em, BATCH3[0]))
+                        c["ezero"] = 1
+                        out.append(c)
     # ---- the same operator objects were used for an ordinary solve + backward before the judged call
     for dtype in ["f64", "c128"]:
         for place in ("dense_leaf", "mf_leaf", "mf_leaf_mv", "add_two", "adj", "view_two"):
@@ -452,6 +466,8 @@ def build(cfg):
     e = None
     if bE is not None:
         ev = sc.make_E(espec, ncols, bE, cfg["Edtype"] == "complex", dt, g)
+        if cfg.get("ezero"):
+            ev = ev * 0.0           # every shift exactly zero (the derivative with respect to E is not)
         e = leaf("E", ev, "E")
     use_m = (mdense is not None and e is not None)
     batch = bcast_shape(bA, bB, bE if e is not None else None, bM if use_m else None)
